@@ -193,7 +193,8 @@ def run(chk):
     # R7: what an assertion may write: the looked-up record with only its counter advanced
     T = flow.Terms(p, ga)
     for a in ups:
-        st = flow.simplify_term(T.operand(a.call["args"][1], a.call_bb, "t"))
+        site_conds = normal.conditions(N, p, ga, a.call_bb, T, inline=True) or []
+        st = normal.under(N.inline(T.operand(a.call["args"][1], a.call_bb, "t")), site_conds)
         ok = st[0] == "with" and len(st[2]) == 1
         wit = "record given to update_credential = %s" % flow.term_str(st)[:300]
         if ok:
